@@ -137,7 +137,9 @@ class Evaluator:
             raise Unsupported(f"arity mismatch calling {finfo.fq}")
         for p, d in finfo.defaults().items():
             if p not in env:
-                env[p] = self.expr(d, {}, finfo)
+                # defaults are evaluated where the function is defined: for a method that is the class body, where the names of
+                # earlier methods / properties are visible (and are the descriptor objects, not values)
+                env[p] = self.expr(d, {"__class_scope__": finfo.cls} if finfo.cls is not None else {}, finfo)
         for n in names:
             if n not in env:
                 raise Unsupported(f"missing argument {n} calling {finfo.fq}")
@@ -349,6 +351,8 @@ class Evaluator:
                 return env[e.id]
             if e.id in ("True", "False", "None"):
                 return {"True": True, "False": False, "None": None}[e.id]
+            if env.get("__class_scope__") is not None and e.id in env["__class_scope__"].methods:
+                return env["__class_scope__"].methods[e.id]
             if e.id in self.stubs:
                 return self.stubs[e.id]
             tgt = self.prog.resolve_name(fi.module, e.id)
